@@ -76,6 +76,27 @@ def gen_star_case(rng):
     return {'cfg': {'nquads': rng.random() < 0.4, 'mode': rng.choice(['NO', 'PARTIAL-AGGREGATIONS', 'MAXIMAL'])}, 'sources': sources, 'doc': doc}
 
 
+def expansion_size(case):
+    """number of flat rules after the expansion of quoted references (product over quoted positions)"""
+    by_id = {t['id']: t for t in case['doc']}
+    memo = {}
+    def size(tid, depth=0):
+        if tid in memo:
+            return memo[tid]
+        t = by_id.get(tid)
+        if t is None or depth > 8:
+            return 1
+        s_mult = size(t['subj']['v'], depth + 1) if t['subj']['k'] == 'quoted' else 1
+        n = 0
+        for p in t.get('poms', []):
+            for o in p['objs']:
+                o_mult = size(o['m']['v'], depth + 1) if o['m']['k'] == 'quoted' else 1
+                n += len(p['preds']) * max(1, len(p.get('graphs', []) + t.get('sgraphs', []))) * o_mult
+        memo[tid] = max(1, n) * s_mult
+        return memo[tid]
+    return max(size(t['id']) for t in case['doc'])
+
+
 def features(case):
     f = set()
     for t in case['doc']:
@@ -95,7 +116,8 @@ def run(ctx, res):
     res.rule = ('chains of quoted triples maps (depth 1-3) in subject, object or both positions, with and without join conditions, same and other source, '
                 'asserted and non-asserted, quoted maps with several predicate-object maps / predicates / objects, NULLs inside the quoted triple, all three '
                 'partitioning modes; implementation against the Engine model and the Spec; distinct = distinct case; non-trivial = at least one RDF-star statement prescribed')
-    family.run_family(ctx, res, [gen_star_case(ctx.rng) for _ in range(ctx.scale(160, 4000))], features)
+    cases = [c for c in (gen_star_case(ctx.rng) for _ in range(ctx.scale(160, 4000))) if expansion_size(c) <= 40]
+    family.run_family(ctx, res, cases, features)
 
 
 replay = family.replay_family
